@@ -615,6 +615,9 @@ def r10_cursor_to_world(rule, root=None):
             if not okarg and a.get("k") == "Call" and (A.path_segs(a["func"]) or [])[-2:] == ["Point3", "new"] and len(a["args"]) == 3:
                 t3 = [str(A.ftxt(x)) for x in a["args"]]
                 okarg = any(t3 == ["%s.x" % p_, "%s.y" % p_, "0"] for p_ in cursor)
+            if recv != "self.image_size" and not okarg:
+                n -= 1  # some other map applied to something that is not the cursor (world -> model, say): not this rule's business
+                continue
             if recv != "self.image_size":
                 rule.bad("%s|%s|cursor-map|receiver" % (ow, f["name"]), "%s::%s converts a position through `%s`; the canvas's own region `self.image_size` is the map the image is drawn through" % (ow, f["name"], recv[:50]), A.where(GUI, c))
             elif not okarg:
